@@ -31,6 +31,11 @@ func c14Sctp(e *Env) {
 		e.Probe("sctp-cn-" + kind)
 	}
 	mux := diam.NewServeMux()
+	if e.T.Chance(1, 3) {
+		// an earlier error report on this mux that nobody has collected
+		mux.Error(&diam.ErrorReport{Error: fmt.Errorf("sim: an earlier report nobody collected")})
+		e.Probe("error-report-slot-occupied")
+	}
 	mux.HandleFunc("ALL", func(c diam.Conn, m *diam.Message) {
 		seq := -1
 		if len(m.AVP) > 0 {
